@@ -418,3 +418,7 @@ R("C15", "date-setstate-local", DATE, '        super().__setattr__("eop", state[
 M("C15", "propagator-copy-returns-self", BASE, "    def copy(self):\n        return self.__class__()\n", "    def copy(self):\n        return self\n", "R15.6")
 R("C15", "propagator-copy-through-local", BASE, "    def copy(self):\n        return self.__class__()\n", "    def copy(self):\n        cls = self.__class__\n        return cls()\n")
 M("C19", "sun-velocity-step", "beyond/env/solarsystem.py", "        x[3:] = (x1[:3] - x0[:3]) / (2 * cls._diff_step.total_seconds())", "        x[3:] = (x1[:3] - x0[:3]) / cls._diff_step.total_seconds()", "DEP")
+CORPUS.setdefault("C16", []).append(("coelliptic-mutable-default-handed-on", "fire", [
+    ("beyond/utils/cwhelper.py", "    def coelliptic(self, date, radial, tangential):", "    def coelliptic(self, date, radial, tangential, maneuvers=[]):"),
+    ("beyond/utils/cwhelper.py", "            propagator=self.propagator,\n        )\n\n    def hohmann_distance", "            propagator=self.propagator,\n            maneuvers=maneuvers,\n        )\n\n    def hohmann_distance"),
+], "SIG"))
